@@ -239,7 +239,11 @@ func TestC13Enumerate(t *testing.T) {
 		maxN, slots = 9, []int64{1000, 2000, 3000, 10000}
 	}
 	c := &counters{classes: map[string]int{}}
+	shard, shards := sim.Shard() // the domain is split by deputy count over the shard processes (each still enumerates its part completely)
 	for n := 1; n <= maxN; n++ {
+		if (n-1)%shards != shard {
+			continue
+		}
 		for _, n1 := range []int{n, (n % maxN) + 1} { // next term: same size and a different size
 			for _, extra := range []int{0, 3} { // listed candidates beyond the deputy count
 				dc := n // the configured deputy count: term 0 has exactly n deputies, term 1 has min(n1+extra, n)
